@@ -114,7 +114,7 @@ def main():
     if os.path.exists("/verif/seeded/first_pass.json"):
         fp = json.load(open("/verif/seeded/first_pass.json"))
         with open("/verif/seeded/INDEX.md", "a") as f:
-            for tag, name in (("", "round 1"), ("-r2", "round 2"), ("-r3", "round 3"), ("-r4", "round 4 (not steered away from earlier changes)"), ("-r5", "round 5"), ("-r6", "round 6"), ("-r7", "round 7 (steered as round 6)"), ("-r8", "round 8 (steered as round 6)"), ("-r9", "round 9 (authors not told about earlier changes)"), ("-r10", "round 10 (steered as round 6)")):
+            for tag, name in (("", "round 1"), ("-r2", "round 2"), ("-r3", "round 3"), ("-r4", "round 4 (not steered away from earlier changes)"), ("-r5", "round 5"), ("-r6", "round 6"), ("-r7", "round 7 (steered as round 6)"), ("-r8", "round 8 (steered as round 6)"), ("-r9", "round 9 (authors not told about earlier changes)"), ("-r10", "round 10 (steered as round 6)"), ("-r11", "round 11 (steered as round 6)"), ("-r12", "round 12 (steered as round 6)"), ("-r13", "round 13 (authors not told about earlier changes)")):
                 ks = [k for k in fp if (("-r" not in k) if tag == "" else (tag in k))]
                 if ks:
                     f.write(f"\n{name}: {len(ks)} changes, first pass reported {sum(1 for k in ks if fp[k]['reporting'])} ({sum(1 for k in ks if fp[k]['own'])} by the change's own property check).")
